@@ -74,4 +74,24 @@ theorem build_wf_of_ordered {evs : List Ev} (ho : Ordered evs) : wfb (build evs)
 theorem build_wf {evs : List Ev} (hc : Conforming evs) : wfb (build evs) = true :=
   build_wf_of_ordered hc.ordered
 
+theorem allLt_elim {l m : List Nat} (h : allLt l m = true) : ∀ x ∈ l, ∀ y ∈ m, x < y := by
+  simpa only [allLt, List.all_eq_true, decide_eq_true_eq] using h
+
+/-- conversely, the ordering clause is part of `wfb` -/
+theorem ordinv_of_wfb {a : Arena} (h : wfb a = true) : OrdInv a := by
+  simp only [wfb, Bool.and_eq_true, decide_eq_true_eq, List.all_eq_true, List.mem_range] at h
+  intro i hi Y Z hr
+  have hw := h.2 i hi
+  simp only [wfCell, Bool.and_eq_true] at hw
+  obtain ⟨⟨⟨⟨⟨_, h1⟩, h2⟩, h3⟩, _⟩, _⟩ := hw
+  cases Y <;> cases Z <;> simp [Cls.rank] at hr
+  · exact allLt_elim h1
+  · exact allLt_elim h2
+  · exact allLt_elim h3
+
+/-- for EVERY event list, the built tree satisfies the Cursor contract exactly when its
+    namespace / attribute / child lists are in document order -/
+theorem build_wf_iff_ordinv (evs : List Ev) : wfb (build evs) = true ↔ OrdInv (build evs) :=
+  ⟨ordinv_of_wfb, wfb_of_inv (build_pinv evs)⟩
+
 end Xsel.StoreL
